@@ -254,9 +254,22 @@ def f8_escape(ctx, repo):
             bad = [r for r in raw if r not in allowed]
             ctx.ob("F8", f.where, f"_writeraw({norm(c.args[0])[:50]}): raw parameters {raw}", not bad, "" if not bad else f"parameter {bad} reaches the XML stream unescaped")
     sa = m.func("XMLWriter.stringifyattrs")
-    ok = any(isinstance(n, ast.Call) and call_name(n) == "escapeattr" and norm(n.args[0]) == "value" for n in ast.walk(sa.node))
-    uses = [norm(n) for n in ast.walk(sa.node) if isinstance(n, ast.BinOp) and isinstance(n.op, ast.Mod) and "value" in norm(n.right)]
-    ok = ok and all("escapeattr(value)" in u for u in uses) and bool(uses)
+    # every occurrence of the value inside a %-format sits inside the argument of escapeattr(...)
+    fmts = [n for n in ast.walk(sa.node) if isinstance(n, ast.BinOp) and isinstance(n.op, ast.Mod) and "value" in norm(n.right)]
+    uses = [norm(n) for n in fmts]
+
+    def escaped(name_node, stop):
+        p_ = parent(name_node)
+        while p_ is not None and p_ is not stop:
+            if isinstance(p_, ast.Call) and call_name(p_) == "escapeattr":
+                return True
+            # a test position (isinstance(value, ...)) is not data flowing into the string
+            if isinstance(p_, ast.IfExp) and any(x is name_node for x in ast.walk(p_.test)):
+                return True
+            p_ = parent(p_)
+        return False
+
+    ok = bool(fmts) and all(escaped(x, f_.right) or False for f_ in fmts for x in ast.walk(f_.right) if isinstance(x, ast.Name) and x.id == "value")
     ctx.ob("F8", sa.where, f"attribute values formatted as {uses}", ok, "" if ok else "an attribute value is interpolated without escapeattr")
     # comments: '--' may not occur inside <!-- ... -->; the escaped text must also have every '--' broken up (to a fixpoint)
     cm = m.func("XMLWriter.comment")
@@ -331,8 +344,10 @@ def include_handling(ctx, repo):
     ok = any(isinstance(c, ast.Call) and last_attr(c) == "simpletag" and any(k.arg == "src" and norm(k.value) == "os.path.basename(tablePath)" for k in c.keywords) for c in calls_in(tf.node))
     ctx.ob("F7i", tf.where, "writer.simpletag(tagToXML(tag), src=os.path.basename(tablePath))", ok)
     xr = repo.mod("misc/xmlReader.py").func("XMLReader._startElementHandler")
-    txt = norm(xr.node)
-    ok = "subFile = attrs.get('src')" in txt and "os.path.join(dirname, subFile)" in txt and "os.path.dirname(self.file.name)" in txt
+    from ..core import private_callees
+
+    txt = norm(xr.node) + "\n" + "\n".join(norm(h.node) for h in private_callees(repo, xr))
+    ok = "attrs.get('src')" in txt and "os.path.join(dirname, subFile)" in txt and "os.path.dirname(self.file.name)" in txt
     ctx.ob("F7i", xr.where, "reader resolves src= against the including file's directory", ok)
     ok = all("self.ttFont" in norm(c) for c in calls_in(xr.node) if call_name(c) == "XMLReader") and any(call_name(c) == "XMLReader" for c in calls_in(xr.node))
     ctx.ob("F7i", xr.where, "sub-readers share the font object", ok)
